@@ -14,8 +14,8 @@ CORR_BITS = (0, 1)          # model/implementation disagree; an oracle value vio
 
 def sizes(tier):
     if tier == "quick":
-        return dict(replay=260, stub=220, alm=100, almh=140, sop=300, max_n=7, max_len=8, max_calls=4)
-    return dict(replay=3000, stub=2500, alm=1500, almh=2000, sop=6000, max_n=10, max_len=10, max_calls=6)
+        return dict(replay=260, stub=220, alm=100, almh=140, fuzzy=120, sop=300, max_n=7, max_len=8, max_calls=4)
+    return dict(replay=3000, stub=2500, alm=1500, almh=2000, fuzzy=1500, sop=6000, max_n=10, max_len=10, max_calls=6)
 
 
 def corpus_cases(kind):
@@ -40,19 +40,22 @@ def streams(tier, seed, view=mc):
     exh = list(mc.exhaustive_cases())
     if tier == "quick":
         exh = [c for i, c in enumerate(exh) if i % 24 == seed % 24]
-    out = [("msa_corpus", view, corpus_cases("msa"), "msa_case", "msa_case_code"),
-           ("msa_replay", view, replay, "msa_case", "msa_case_code"),
-           ("msa_stub", view, stub, "msa_case", "msa_case_code")]
+    out = [("msa_corpus", view, corpus_cases("msa"), "list msa_case", "msa_cases_code"),
+           ("msa_replay", view, replay, "list msa_case", "msa_cases_code"),
+           ("msa_stub", view, stub, "list msa_case", "msa_cases_code")]
     if view is not mc:      # C11: the score functions themselves against the documented column score
         rng5 = random.Random(seed + 4)
         out += [("score_functions", mc.SopView, [mc.gen_sop_case(rng5) for _ in range(z["sop"])],
                  "sop_case", "sop_case_code")]
     if view is mc:          # the exhaustive prog_align scope and the Alignments clause belong to C04 only
-        out += [("msa_exhaustive", view, exh, "msa_case", "msa_case_code"),
+        out += [("msa_exhaustive", view, exh, "list msa_case", "msa_cases_code"),
                 ("alm_corpus", mc.AlmView, corpus_cases("alm"), "alm_case", "alm_case_code"),
                 ("alignments", mc.AlmView, alm, "alm_case", "alm_case_code"),
                 ("almh_corpus", mc.AlmHView, corpus_cases("almh"), "almh_case", "almh_case_code"),
-                ("alignments_history", mc.AlmHView, almh, "almh_case", "almh_case_code")]
+                ("alignments_history", mc.AlmHView, almh, "almh_case", "almh_case_code"),
+                ("fuzzy_corpus", mc.FuzzyView, corpus_cases("fuzzy"), "fuzzy_case", "fuzzy_case_code"),
+                ("alignments_fuzzy", mc.FuzzyView, [mc.gen_fuzzy_case(random.Random(seed + 5 + k)) for k in range(z["fuzzy"])],
+                 "fuzzy_case", "fuzzy_case_code")]
     return out
 
 
@@ -136,14 +139,16 @@ def replay(path, prop=PROP):
     env.use_repo()
     case = mc.from_json(rep["case"])
     d = coqrun.rundir(prop + "_replay")
-    if "mats" in case and "cols" in case:
+    if "fwords" in case:
+        comp, ctype, cfn = mc.FuzzyView, "fuzzy_case", "fuzzy_case_code"
+    elif "mats" in case and "cols" in case:
         comp, ctype, cfn = mc.SopView, "sop_case", "sop_case_code"
     elif "words" in case and "nref" in case:
         comp, ctype, cfn = mc.AlmHView, "almh_case", "almh_case_code"
     elif "words" in case:
         comp, ctype, cfn = mc.AlmView, "alm_case", "alm_case_code"
     else:
-        comp, ctype, cfn = mc, "msa_case", "msa_case_code"
+        comp, ctype, cfn = mc, "list msa_case", "msa_cases_code"
     res = comp.run_impl(case)
     bad = coqrun.eval_cases(d, "replay", comp.IMPORTS, ctype, cfn, [comp.render(case, res)])
     code = bad.get(0, 0)
